@@ -124,17 +124,25 @@ def run_isolated(driver, lines, timeout=20):
     env = dict(ENV)
     env["REDPROXY_VERIF_DRIVER"] = "1"
 
+    # relative paths in hostile documents (a retyped accessLog.path, say) must not land in the check's own directory
+    cwd = os.path.join(CACHE, "e2e", "c18-cwd-%d" % os.getpid())
+    os.makedirs(cwd, exist_ok=True)
+
     def one(l):
         try:
-            p = subprocess.run([driver], input=l + "\n", env=env, capture_output=True, text=True, timeout=timeout)
+            p = subprocess.run([driver], input=l + "\n", env=env, capture_output=True, text=True, timeout=timeout, cwd=cwd)
         except subprocess.TimeoutExpired:
             return "HANG process did not answer within %ds" % timeout
         out = p.stdout.strip().split("\n")[-1] if p.stdout.strip() else ""
         if p.returncode != 0 or not out:
             return "CRASH rc=%d %s" % (p.returncode, p.stderr.strip()[-200:].replace("\n", " "))
         return out
-    with concurrent.futures.ThreadPoolExecutor(NCPU) as ex:
-        return list(ex.map(one, lines))
+    try:
+        with concurrent.futures.ThreadPoolExecutor(NCPU) as ex:
+            return list(ex.map(one, lines))
+    finally:
+        import shutil
+        shutil.rmtree(cwd, ignore_errors=True)
 
 
 def graph_doc(g):
@@ -195,6 +203,7 @@ def run(tier, seed, replay=None):
             docs += cc.mutants(r, b, per)
         docs += cc.lb_graphs(r, 150 if tier == "quick" else 1500)
         docs += cc.access_log_docs()
+        docs += cc.tls_file_docs(crt, key, os.path.join(CACHE, "e2e", "c18-tlsfiles"))
         for what, f in DEEP_FILTERS + NESTED_MAIN:
             docs.append(("filter with " + what, {"apiVersion": "v1alpha", "kind": "ProxyDefinition", "listeners": [], "connectors": [{"name": "direct"}],
                                                  "rules": [{"filter": f, "target": "direct"}]}))
@@ -391,7 +400,7 @@ def run(tier, seed, replay=None):
         shutil.rmtree(tdir, ignore_errors=True)
     rep.coverage.update({
         "evaluations": n_eval, "distinct_nontrivial": len(docs) + len(graphs),
-        "rule": "2 base documents using every listener and connector kind + mutants (delete / retype / duplicate / randomise a field, rename name/type, rewire load-balancer members, replace rules) + random load-balancer documents + degenerate documents, each in its own process with a probe request per non-QUIC connector; random connector tables of 1-6 entries compared with the model's table_ok and resolve; --test of the real binary on a sample; accepted documents started on free ports and probed; rule lists POSTed as JSON",
+        "rule": "2 base documents using every listener and connector kind + mutants (delete / retype / duplicate / randomise a field, rename name/type, rewire load-balancer members, replace rules) + random load-balancer documents + degenerate documents + TLS certificate / key / CA files that are empty, prose, truncated, the other kind of PEM item, a directory or missing (listeners, QUIC, connectors), each in its own process with a probe request per non-QUIC connector; random connector tables of 1-6 entries compared with the model's table_ok and resolve; --test of the real binary on a sample; accepted documents started on free ports and probed; rule lists POSTed as JSON",
         "input_distribution": dict(dist), "model_impl_disagreements": n_diff, "accepted_documents": len(accepted), "documents_started": started, "rule_lists_posted": posted,
     })
     rep.assumptions = ["tproxy listeners are removed before an accepted document is started for real (needs CAP_NET_ADMIN)"]
